@@ -1864,3 +1864,64 @@ def summarize_status_unbounded2(S, I, variant):
                 bimp(incomplete(i), band(bnot(done), w >= 0, w < zi(iterm(sp["NA"])), xcmp(">", sp["p_of"](w), sp["rl"]))))
     else:
         S.undecided("complete iff every assertion of every contest meets its contest's limit")
+
+
+# ------------------------------------------------------------------ C16: Audit.find_sample_size, a contest's estimate = largest among its assertions (unbounded)
+
+@script(["C16"], "Audit.find_sample_size/contest estimate = largest estimate among its unconfirmed assertions (unbounded number of assertions)",
+        variants=(("with_sample",),), optional=True)
+def audit_find_sample_size_unbounded(S, I, variant):
+    c = ctx()
+    Asn = I.get(MOD, "Assertion")
+    contests, specs = {}, {}
+    for cid in ("c0", "c1"):
+        con = mk_contest(I, id=cid, risk_limit=XR.const(Fraction(1, 20)), cards=100, candidates=["A", "B"], winner=["A"], audit_type="CARD_COMPARISON")
+        NA = S.integer(f"n_assertions_{cid}", lo=0)
+        EST = z3.Function(f"estimate_{cid}", z3.IntSort(), z3.IntSort())
+        PROVED = z3.Function(f"proved_{cid}", z3.IntSort(), z3.BoolSort())
+        keys = {}
+
+        def key_of(j, cid=cid, keys=keys):
+            k = tid(zi(j))
+            if k not in keys:
+                keys[k] = FStr(["assertion", cid, SInt(zi(j))])
+            return keys[k]
+
+        def make(j, con=con, EST=EST, PROVED=PROVED):
+            j = zi(j)
+            c.assume(EST(j) >= 0, definitional=True)
+            asn = Obj(Asn, {"contest": con, "proved": mkbool(PROVED(j)), "winner": "A", "loser": "B", "margin": XR.const(Fraction(1, 10))})
+            asn.attrs["find_sample_size"] = Builtin("abstract_find_sample_size", lambda I_, a, k, j=j: SInt(EST(j)))
+            asn.attrs["mvrs_to_data"] = Builtin("abstract_mvrs_to_data", lambda I_, a, k: (None, XR.const(1)))
+            return asn
+
+        d = SymObjDict(iterm(NA), key_of, make)
+        d.spec = {"NA": NA, "RMX": SymArr(iterm(NA), (lambda EST, PROVED: (lambda j: mkint(iite(PROVED(zi(j)), 0, iterm(SInt(EST(zi(j))))))))(EST, PROVED), "int").fold("max0")}
+        con.attrs["assertions"] = d
+        d.spec["pos"] = S.induction(f"[{cid}] the running largest estimate is >= 0",
+                                    (lambda d, NA: (lambda k: bimp(icmp("<=", k, NA), icmp(">=", d.spec["RMX"].at(k), 0))))(d, NA), lo=0)
+        contests[cid], specs[cid] = con, d.spec
+
+    def rmx_at(d, j):
+        d.spec["pos"](j)
+        return d.spec["RMX"].at(j)
+
+    inner = RecordLoopSummary(S, rmx_at, None)
+    I.loop_matchers["Audit.find_sample_size"] = [(_is_items_loop_over("assertions"), inner)]
+    stratum = Obj(I.get(MOD, "Stratum"), {"use_style": False, "max_cards": 100})
+    audit = Obj(I.get(MOD, "Audit"), {"strata": {"s": stratum}, "reps": None, "quantile": XR.const(Fraction(1, 2)), "sim_seed": 1,
+                                      "error_rate_1": XR.const(0), "error_rate_2": XR.const(0)})
+    mv = [sym_cvr(I, "mvr0", {"c0": ["A", "B"]})] if variant[0] == "with_sample" else None
+    r, exc = guard(S, I, lambda: I.call(I.getattr(audit, "find_sample_size"), [], {"contests": contests, "cvrs": None, "mvr_sample": mv,
+                                                                                     "cvr_sample": (list(mv) if mv else None)}))
+    if exc:
+        return
+    if len(inner.done) != 2:
+        raise NotApplicable("the loop over a contest's assertions was not recognised")
+    for cid, con in contests.items():
+        sp = specs[cid]
+        S.holds(f"[{cid}] the contest's estimate = the largest estimate among its unconfirmed assertions (0 if it has none)",
+                icmp("==", con.attrs["sample_size"], sp["RMX"].at(iterm(sp["NA"]))))
+    m0, m1 = (specs[k]["RMX"].at(iterm(specs[k]["NA"])) for k in ("c0", "c1"))
+    S.holds("without style information the audit's estimate is the largest contest estimate",
+            icmp("==", r, iite(icmp(">=", m0, m1), iterm(m0), iterm(m1))))
